@@ -817,7 +817,7 @@ def array_binop(op, a, b, node=None):
 
 
 def elem_sort(elem):
-    return {'int': I, 'real': R, 'cplx': CPLX}[elem]
+    return {'int': I, 'real': R, 'cplx': CPLX, 'bool': I}[elem]      # boolean arrays are 0/1 integer arrays
 
 
 def arr_sort(ndim, elem='int'):
